@@ -172,7 +172,13 @@ def search(ctx, boost=False):
             if msg:
                 s.violations.append(dict(what=msg, case=dict(kind="shift", source=src2, k=k)))
         if i % 4 == 0:
-            pre = "".join(rng.choice(PRE + ["int a;\n", "struct S {\n", "namespace n {\n"]) for _ in range(rng.randint(0, 6)))
+            parts = []
+            for _ in range(rng.randint(0, 6)):
+                c = rng.choice(PRE + ["int a;\n", "struct S {\n", "namespace n {\n"])
+                if c == "namespace n {\n" and "struct S {\n" in parts:
+                    c = "int a;\n"         # a namespace inside a class is a parse error of its own, on an earlier line
+                parts.append(c)
+            pre = "".join(parts)
             if pre.endswith("\\\n"):
                 pre += "\n"
             bad = rng.choice(BAD)
